@@ -40,6 +40,7 @@ MIN_REACH = {
     "crops_whose_function_was_assigned_through_the_crop": {"quick": 5, "thorough": 60},
     "farmer_crops_built_by_the_generic_constructor_with_shuffle": {"quick": 10, "thorough": 100},
     "farmer_crops_reaped_without_sync": {"quick": 3, "thorough": 40},
+    "farmer_crops_with_an_earlier_failed_result_write": {"quick": 10, "thorough": 100},
 }
 TIME_BUDGET = {"quick": 400, "thorough": 3400}
 CASE_TIMEOUT = {"quick": 300, "thorough": 600}
@@ -131,7 +132,9 @@ def run_case(ctx, case):
     sig = {"api": "farmer-crop", "farmer": farmer, "descr": case["descr"], "to_df": case["to_df"], "shuffle": bool(case["shuffle"]),
            "fresh": case["fresh"], "reload": case["reload"], "policy": str(case["policy"]), "form": w["mode"]}
     log1, log2 = os.path.join(tmp, "calls1.log"), os.path.join(tmp, "calls2.log")
-    fn1 = cropkit.build_probe(kind, log1, name="fprobe", by_value=case["fresh"])
+    ctl1 = os.path.join(tmp, "ctl1.json")
+    probe.write_ctl(ctl1)
+    fn1 = cropkit.build_probe(kind, log1, ctl=ctl1, name="fprobe", by_value=case["fresh"])
     fn2 = probe.Probe(kind, logfile=log2, name="fprobe")
     ver = 2 if farmer == "harvester" else None
     via_setter = case["idx"] % 6 == 3 and not case.get("writer_between") and farmer != "sampler"    # (a Sampler is also sampled directly here)
@@ -313,6 +316,18 @@ def run_case(ctx, case):
                     out1 = r[1]
             else:
                 c2 = xyzpy.Crop(name=name, parent_dir=tmp) if case["reload"] else crop
+                if case["idx"] % 4 == 1:
+                    # an earlier attempt to grow the first batch failed while WRITING its result (a result that cannot be
+                    # stored): whatever it left behind, the crop is then grown and reaped like any other
+                    b1 = cropkit.read_pickle(cropkit.batch_files(tmp, name)[1])
+                    probe.write_ctl(ctl1, unpicklable=[probe.canon(b1[0])])
+                    try:
+                        c2.grow(1)
+                        bad.append("a grow whose result cannot be written did not raise")
+                    except Exception:
+                        ctx.count("farmer_crops_with_an_earlier_failed_result_write")
+                    finally:
+                        probe.write_ctl(ctl1)
                 c2.grow_missing()
                 c3 = xyzpy.Crop(name=name, parent_dir=tmp) if case["reload"] else crop
                 try:
